@@ -180,7 +180,7 @@ void interior_block_matmul_impl(
                 c_ij[n+unrollOuterloop]    = fmadd(amm0,bmm1,c_ij[n+unrollOuterloop]);
                 c_ij[n+2*unrollOuterloop]  = fmadd(amm0,bmm2,c_ij[n+2*unrollOuterloop]);
                 c_ij[n+3*unrollOuterloop]  = fmadd(amm0,bmm3,c_ij[n+3*unrollOuterloop]);
-                c_ij[n+4*unrollOuterloop]  = fmadd(amm0,bmm3,c_ij[n+4*unrollOuterloop]);
+                c_ij[n+4*unrollOuterloop]  = fmadd(amm0,bmm4,c_ij[n+4*unrollOuterloop]);
             }
         }
         for (size_t n = 0; n < unrollOuterloop; ++n) {
